@@ -673,6 +673,22 @@ theorem synthesis_within_every_piece (soa : Int) (proofs : List Int) (now : Int)
           refine ⟨by omega, hall, hs, hp, by omega, ?_⟩
           intro p hp'; have := hp p hp'; omega
 
+/-- **A synthesised NXDOMAIN inherits the shortest of its three pieces.** The
+RFC 8198 NXDOMAIN rung is composed of the zone's current SOA entry, the NSEC
+set that covers the name, and the NSEC set that covers the wildcard at the
+closest encloser — admitted at different instants, each with its own lifetime
+(TTLs, RRSIG window, lease). It is served only while all three are live, the
+expiry reported to the request tree is no later than any of them, and the TTL
+on every record is within what each has left. -/
+theorem nxdomain_synthesis_within_three_pieces (soa cover wildcard now : Int) (t : Nat) (e : Int)
+    (h : synthServe soa [cover, wildcard] now = some (t, e)) :
+    (now < soa ∧ now < cover ∧ now < wildcard) ∧ (e ≤ soa ∧ e ≤ cover ∧ e ≤ wildcard) ∧
+      ((t : Int) * S ≤ soa - now ∧ (t : Int) * S ≤ cover - now ∧ (t : Int) * S ≤ wildcard - now) := by
+  obtain ⟨h1, h2, h3, h4, h5, h6⟩ := synthesis_within_every_piece soa [cover, wildcard] now t e h
+  have mc : cover ∈ [cover, wildcard] := by simp
+  have mw : wildcard ∈ [cover, wildcard] := by simp
+  exact ⟨⟨h1, h2 _ mc, h2 _ mw⟩, ⟨h3, h4 _ mc, h4 _ mw⟩, ⟨h5, h6 _ mc, h6 _ mw⟩⟩
+
 /-- Within ONE admission a proof RRset's entry never outlives the SOA entry
 admitted beside it (`extract` folds the SOA RRset into every proof set's
 lifetime).  This says nothing about the SOA entry a *later* admission puts in
@@ -1139,6 +1155,10 @@ example : proofAdmit (10800 * S) 0 (7200 * S) none [{ rr := { ttl := 30, kind :=
 example : dns64TTL noSOACeiling (negativeAAAATTL (some (3, 300))) [249, 249] = 3 := by decide
 example : dns64TTL noSOACeiling (negativeAAAATTL none) [3600] = 600 := by decide
 example : dns64ChainTTL 3 40 = 3 := by decide
+
+-- NXDOMAIN from SOA (300 s), covering NSEC (admitted at 10 s, 300 s) and the apex NSEC (200 s): 189 s at 10 s, gone at 200 s
+example : synthServe (300 * S) [310 * S, 200 * S] (10 * S + 1) = some (189, 200 * S) := by decide
+example : synthServe (300 * S) [310 * S, 200 * S] (200 * S) = none := by decide
 
 -- the interleaving: capture, newer Set, late CAS
 example : (casStep (casRun {} [.set, .capture 0, .set]) (.cas 0)).2 = false := by decide
